@@ -28,11 +28,12 @@ ID = "C12"
 LEVEL = "fault_enumeration"
 DESIGN_REF = "DESIGN.md §4 C12"
 RULE = (
-    "(a) Hypothesis lists of 5-40 cycle steps against the real kernel, model predicts 3 descriptors + 2 threads per "
-    "started inotify watch and 1 thread per running observer; (b) DFS with <= k preemptions (k=1 quick, 2 thorough) over 5 "
+    "(a) Hypothesis lists of 5-40 cycle steps (new observer, schedule of a tree / a missing path / the same watch again, "
+    "unschedule, start, stop, stop and keep using the observer object, delete a watched root) against the real kernel, "
+    "model predicts 3 descriptors + 2 threads per started inotify watch and 1 thread per running observer; (b) DFS with <= k preemptions (k=1 quick, 2 thorough) over 5 "
     "fixed reader/consumer/closer programs + random programs x random schedules on the simulated kernel; (c) exhaustive: "
     "trees of 1-6 directories x every kernel call position of watch construction x {ENOENT, ENOSPC, EMFILE, EACCES}.  "
-    "non-trivial: (a) cycle with a failing schedule() or a self-shutdown; (b) close() overlapping a read_events() call "
+    "non-trivial: (a) cycle with a failing schedule(), a self-shutdown or a start() after stop(); (b) close() overlapping a read_events() call "
     "with >= 1 preemption; (c) fault at position >= 1; distinct = digest of the case"
 )
 ASSUMPTIONS = [
@@ -66,6 +67,8 @@ def run_cycles(steps):
         raise runner.Inconclusive(f"library threads alive before the case: {th0}")
     obs = None
     running = False
+    dead = False  # stop() was called on this observer: its own thread will never run (again), the object is re-used
+    ever_started = False
     watches = {}  # name -> (watch, alive)
     handler = FileSystemEventHandler()
     info = {"failing": 0, "selfshutdown": 0}
@@ -94,6 +97,8 @@ def run_cycles(steps):
                 if obs is None:
                     obs = InotifyObserver()
                     running = False
+                    dead = False
+                    ever_started = False
                     watches = {}
             elif obs is None:
                 continue
@@ -124,11 +129,35 @@ def run_cycles(steps):
                 if name in watches and watches[name]["watch"] is not None:
                     obs.unschedule(watches[name]["watch"])
                     del watches[name]
+            elif k == "start" and dead:
+                # a stopped observer is started (again): the call raises RuntimeError if its thread ran before, else the
+                # thread starts and ends at once; either way the emitters scheduled meanwhile were started and are the
+                # observer's to release at its next stop()
+                if all(t != "InotifyObserver" for t in lib_threads()):
+                    try:
+                        obs.start()
+                        ever_started = True
+                        end = time.monotonic() + 5
+                        while time.monotonic() < end and obs.is_alive():
+                            time.sleep(0.005)
+                    except RuntimeError:
+                        pass
+                    except OSError:
+                        # a missing path among the watches: as below, the application gives the observer up
+                        info["failing"] += 1
+                        obs.stop()
+                        obs = None
+                        running = dead = False
+                        watches = {}
+                    for w in watches.values():
+                        w["started"] = True
+                    info["restarted_after_stop"] = info.get("restarted_after_stop", 0) + 1
             elif k == "start":
                 if not running and all(t != "InotifyObserver" for t in lib_threads()):
                     try:
                         obs.start()
                         running = True
+                        ever_started = True
                         for w in watches.values():
                             w["started"] = True
                     except OSError:
@@ -149,9 +178,17 @@ def run_cycles(steps):
                 obs = None
                 running = False
                 watches = {}
+            elif k == "stop_keep":
+                # stop(), and the application goes on using the observer object
+                obs.stop()
+                if ever_started:
+                    obs.join()
+                running = False
+                dead = True
+                watches = {}
             elif k == "rmroot":
                 name = step[1]
-                if name in watches and watches[name]["started"] and watches[name]["alive"] and running:
+                if name in watches and watches[name]["started"] and watches[name]["alive"] and running and not dead:
                     shutil.rmtree(os.path.join(base, name))
                     info["selfshutdown"] += 1
                     em = [e for e in obs.emitters if e.watch == watches[name]["watch"]]
@@ -185,6 +222,7 @@ STEP = st.one_of(
     st.tuples(st.just("unschedule"), st.sampled_from(["t1", "t2"])),
     st.just(("start",)),
     st.just(("stop",)),
+    st.just(("stop_keep",)),
     st.tuples(st.just("rmroot"), st.sampled_from(["t1", "t2"])),
 ).map(list)
 
@@ -380,7 +418,9 @@ def run_shard(spec):
                 cl.append("failing-call")
             if info["selfshutdown"]:
                 cl.append("self-shutdown")
-            st_.case(["real", steps], bool(info["failing"] or info["selfshutdown"]), cl, sample={"steps": steps} if count[0] % 10 == 1 else None)
+            if info.get("restarted_after_stop"):
+                cl.append("observer-started-after-stop")
+            st_.case(["real", steps], bool(info["failing"] or info["selfshutdown"] or info.get("restarted_after_stop")), cl, sample={"steps": steps} if count[0] % 10 == 1 else None)
 
         res = runner.hyp_search(st.lists(STEP, min_size=5, max_size=40), body, seed=runner.derive_seed(seed, ID, "real", i), max_examples=60 if tier == "quick" else 600, shrink=(tier != "quick"))
         if res is not None:
